@@ -108,7 +108,7 @@ func concIncr(r *vx.Rng) string {
 			for j := 0; j < per; j++ {
 				v, err := tv.Compute(func(cur uint16, ex bool) (uint16, error) { return cur + 1, nil })
 				if err != nil {
-					errs <- "Compute failed: " + err.Error()
+					report(errs, "Compute failed: "+err.Error())
 					return
 				}
 				rets[w] = append(rets[w], v)
@@ -131,7 +131,7 @@ func concIncr(r *vx.Rng) string {
 				case errors.Is(err, kvstore.ErrKeyNotFound):
 					reads[q] = append(reads[q], -1)
 				default:
-					errs <- "Get failed: " + err.Error()
+					report(errs, "Get failed: "+err.Error())
 					return
 				}
 				runtime.Gosched()
@@ -210,10 +210,6 @@ func concMixed(r *vx.Rng) string {
 	}
 	var mu sync.Mutex
 	written := map[uint16]bool{} // values whose write call has STARTED (a read may see it before the call returns)
-	type rd struct {
-		v       uint16
-		started map[uint16]bool
-	}
 	errs := make(chan string, writers+readers+1)
 	var wg sync.WaitGroup
 	start := make(chan struct{})
@@ -229,38 +225,38 @@ func concMixed(r *vx.Rng) string {
 				case "incr":
 					v, err := tv.Compute(func(cur uint16, ex bool) (uint16, error) {
 						if ex && !known(cur) {
-							errs <- fmt.Sprintf("Compute callback saw %d, never written", cur)
+							report(errs, fmt.Sprintf("Compute callback saw %d, never written", cur))
 						}
 						if !ex && cur != 0 {
-							errs <- fmt.Sprintf("Compute callback saw (%d,false)", cur)
+							report(errs, fmt.Sprintf("Compute callback saw (%d,false)", cur))
 						}
 						note(cur + 1) // inside the write lock: nobody can see cur+1 before this
 						return cur + 1, nil
 					})
 					if err != nil || !known(v) {
-						errs <- fmt.Sprintf("Compute(+1) = %d,%v", v, err)
+						report(errs, fmt.Sprintf("Compute(+1) = %d,%v", v, err))
 						return
 					}
 				case "set":
 					note(o.v)
 					if err := tv.Set(o.v); err != nil {
-						errs <- "Set failed: " + err.Error()
+						report(errs, "Set failed: "+err.Error())
 						return
 					}
 				case "del":
 					if err := tv.Delete(); err != nil {
-						errs <- "Delete failed: " + err.Error()
+						report(errs, "Delete failed: "+err.Error())
 						return
 					}
 				case "keep":
 					v, err := tv.Compute(func(cur uint16, ex bool) (uint16, error) {
 						if ex && !known(cur) {
-							errs <- fmt.Sprintf("Compute callback saw %d, never written", cur)
+							report(errs, fmt.Sprintf("Compute callback saw %d, never written", cur))
 						}
 						return 0, kvstore.ErrTypedValueNotChanged
 					})
 					if err != nil || (v != 0 && !known(v)) {
-						errs <- fmt.Sprintf("Compute(keep) = %d,%v", v, err)
+						report(errs, fmt.Sprintf("Compute(keep) = %d,%v", v, err))
 						return
 					}
 				}
@@ -275,18 +271,18 @@ func concMixed(r *vx.Rng) string {
 			for j := 0; j < per; j++ {
 				if j%3 == 2 {
 					if _, err := tv.Has(); err != nil {
-						errs <- "Has failed: " + err.Error()
+						report(errs, "Has failed: "+err.Error())
 						return
 					}
 					continue
 				}
 				v, err := tv.Get()
 				if err != nil && !errors.Is(err, kvstore.ErrKeyNotFound) {
-					errs <- "Get failed: " + err.Error()
+					report(errs, "Get failed: "+err.Error())
 					return
 				}
 				if err == nil && !known(v) {
-					errs <- fmt.Sprintf("reader %d saw %d, never written", q, v)
+					report(errs, fmt.Sprintf("reader %d saw %d, never written", q, v))
 					return
 				}
 				runtime.Gosched()
@@ -301,4 +297,11 @@ func concMixed(r *vx.Rng) string {
 	default:
 	}
 	return finalCoherent(tv, inner)
+}
+
+func report(errs chan string, s string) {
+	select {
+	case errs <- s:
+	default:
+	}
 }
